@@ -370,6 +370,13 @@ class CallListerVisitor(ast.NodeVisitor):
         # earlier in its body runs again
         for name in _bound_names(node):
             self.bind_name(name, node)
+        # the same goes for whatever else a later statement of the body does
+        # to a name (mutating it, handing it to other code): look at the body
+        # once for that, then again for the calls, which then see the names
+        # as an earlier iteration leaves them
+        calls, to_revisit = len(self.calls), len(self.to_revisit)
+        self.generic_visit(node)
+        del self.calls[calls:], self.to_revisit[to_revisit:]
         self.generic_visit(node)
 
     visit_AsyncFor = visit_While = visit_For
